@@ -212,6 +212,7 @@ type Const struct {
 	Es    []Const `json:"es,omitempty"`
 	Name  string  `json:"name,omitempty"`
 	F     string  `json:"f,omitempty"`
+	Idx   int     `json:"idx,omitempty"` // gref: index of the module-level call that made the object (unnamed objects)
 	B     int     `json:"b,omitempty"`
 	// expressions
 	Kind  string   `json:"kind,omitempty"`
